@@ -1,10 +1,13 @@
 from .. import flow
 from ..engines_cache import CacheEngine, S
+from ..engines_cache_adm import CacheAdmEngine
 
 ENG = CacheEngine(prop="C16")
-ENGINES = [ENG]
+# cache.adm: model-free search over TinyLfu (AdmitAndEvict path) / Arc / Slru / Random, which the model does not cover
+ENGINES = [ENG, CacheAdmEngine()]
 
 ASSUMPTIONS = [
+    "engine cache.adm is model-free (implementation-side monitors only) and covers the policies outside the Coq model: TinyLfu (builder default, the AdmitAndEvict path), Arc, Slru, Random; its over-capacity clause is not judged for Arc (F-20-arc-admit)",
     "K2 (operation-level) model: the notifier thread is the explicit step ODeliver (any speed); two removers racing for one key (C16_sections) are not covered by a sequential model (partial)",
     "notification channel: exact FIFO of 128, try_send drops when full (ghost counter st_ndrops); 'sent' = listener log ++ queue",
     "D1 reads the listener only at sync points: insert+remove of a sentinel key, then a bounded wait for the sentinel's own notification (FIFO channel, one consumer => everything earlier has been delivered); the generator inserts a sync before 100 notifications can be outstanding, so the channel never fills in D1; per-sync logs are compared as sorted multisets (cross-shard order of multi_remove and HashMap iteration order are unspecified)",
